@@ -48,3 +48,8 @@ def run(ctx):
                 out.append(s)
                 k += 1
     C01.run_family(ctx, out, 300 if quick else 10000, "C04")
+
+
+def replay_witness(ctx, witness):
+    from adapters import poolsim
+    return poolsim.replay_witness(ctx, witness)
